@@ -228,6 +228,16 @@ class NPProxy:
     def sign(self, a):
         return self._apply(a, lambda v: SReal.const(1) if bool(v > 0) else (SReal.const(-1) if bool(v < 0) else SReal.const(0)), np.sign)
 
+    def isfinite(self, a):
+        a_ = np.asarray(a)
+        if a_.dtype != object:
+            return np.isfinite(a)
+        r = np.zeros(a_.shape, dtype=bool)
+        for idx in np.ndindex(*a_.shape):
+            v = a_[idx]
+            r[idx] = not isinstance(v, Inf) and not (isinstance(v, float) and (v != v or v in (float("inf"), float("-inf"))))
+        return r if a_.shape else bool(r)
+
     def isinf(self, a):
         a_ = np.asarray(a)
         if a_.dtype != object:
